@@ -74,8 +74,71 @@ func (h *H) eddsaReuse(rounds int) {
 		if len(hist) > 6 {
 			hist = hist[len(hist)-6:]
 		}
+		rekeyed := false
+		// refused operations on the same object: afterwards it must behave exactly as before
+		failed := func() {
+			probe := []byte("probe message")
+			pub0, mar0 := mustBytes(e.Public), mustBytes(e)
+			sig0, _ := e.Sign(probe)
+			var what string
+			switch r.Intn(4) {
+			case 0, 1: // UnmarshalBinary with a wrong length (must be refused and leave the key alone)
+				n := []int{0, 1, 31, 32, 33, 63, 65, 96}[r.Intn(8)]
+				buf := r.Bytes(n)
+				if r.Bool() && n >= 32 { // a plausible prefix: seed || public of another key, cut or extended
+					o := eddsa.NewEdDSA(&fixedStream{r.Bytes(32), 0})
+					copy(buf, mustBytes(o))
+				}
+				var err error
+				if p, m := vh.Try(func() { err = e.UnmarshalBinary(buf) }); p {
+					h.rep.Fail("eddsa.UnmarshalBinary/panic", m, map[string]string{"len": fmt.Sprint(n)})
+				}
+				what = fmt.Sprintf("failed-UnmarshalBinary(len=%d)", n)
+				if err == nil {
+					// not refused: the object holds another key now; nothing to compare
+					h.rep.Dist("reuse:eddsa:wrong-length-UnmarshalBinary-not-refused")
+					rekeyed = true
+					return
+				}
+			case 2: // verification of garbage / malformed signatures under the object's key
+				for _, g := range [][]byte{nil, r.Bytes(63), r.Bytes(64), r.Bytes(65), append(append([]byte{}, sig0[:32]...), bytes.Repeat([]byte{0xff}, 32)...)} {
+					if eddsa.Verify(e.Public, probe, g) == nil {
+						h.rep.Fail("eddsa.Verify/garbage-accepted", "garbage signature accepted", map[string]string{"sig": vh.Hex(g)})
+					}
+				}
+				what = "failed-Verify(garbage)"
+			case 3:
+				_ = eddsa.VerifyWithChecks(pub0[:31], probe, sig0)
+				_ = eddsa.VerifyWithChecks(append(append([]byte{}, pub0...), 0), probe, sig0)
+				_ = eddsa.VerifyWithChecks(pub0, probe, sig0[:40])
+				what = "failed-VerifyWithChecks(bad lengths)"
+			}
+			hist = append(hist, what)
+			h.rep.Dist("reuse:eddsa:" + what)
+			sig1, err1 := e.Sign(probe)
+			rp := map[string]string{"history_on_one_EdDSA_object": fmt.Sprint(hist), "round": fmt.Sprint(it), "seed_of_current_key": vh.Hex(seed),
+				"public_before": vh.Hex(pub0), "public_after": vh.Hex(mustBytes(e.Public)), "probe_sig_before": vh.Hex(sig0), "probe_sig_after": vh.Hex(sig1)}
+			if !bytes.Equal(pub0, mustBytes(e.Public)) || !bytes.Equal(mar0, mustBytes(e)) {
+				h.rep.Fail("eddsa/state-changed-by-refused-call:key", "a refused call changed the key held by the EdDSA object", rp)
+			}
+			if err1 != nil || !bytes.Equal(sig0, sig1) {
+				h.rep.Fail("eddsa/state-changed-by-refused-call:signature", "signatures of the object differ before and after a refused call", rp)
+			}
+			if eddsa.Verify(e.Public, probe, sig1) != nil || !goVerify(gpub, probe, sig1) {
+				h.rep.Fail("eddsa/state-changed-by-refused-call:signature-rejected", "after a refused call the object's signature is rejected under its public key / by crypto/ed25519", rp)
+			}
+		}
+		if r.Chance(75) {
+			failed()
+		}
 		nsig := 1 + r.Intn(3)
-		for j := 0; j < nsig; j++ {
+		for j := 0; j < nsig && !rekeyed; j++ {
+			if j > 0 && r.Chance(40) {
+				failed()
+				if rekeyed {
+					break
+				}
+			}
 			msg := r.Bytes([]int{0, 1, 32, 33, 100}[r.Intn(5)])
 			msgBuf := append([]byte{}, msg...)
 			sig, err := e.Sign(msgBuf)
@@ -220,6 +283,36 @@ func (h *H) schnorrPointReuse(rounds int) {
 					h.rep.Fail("eddsa.Verify/reused-object:schnorr-signature-rejected", err.Error(), rp)
 				}
 			}
+			// refused calls on the same key objects, then the same questions again
+			if r.Chance(70) {
+				pb := mustBytes(pub)
+				det := r.Bytes(16)
+				sA, _ := schnorr.Sign(&gsuite{g, vh.NewSeqStream(det)}, priv, msg)
+				bad := [][]byte{nil, sig[:len(sig)-1], append(append([]byte{}, sig...), 0), r.Bytes(len(sig)), flipBit(sig, r.Intn(8*len(sig)))}
+				for _, b := range bad {
+					if ok, _ := schnorrVerify(g, pub, msg, b); ok && !bytes.Equal(b, sig) {
+						same := false
+						if len(b) == len(sig) { // another encoding of the same (R, s) on a group that has several
+							R1, R2, s1, s2 := g.Point(), g.Point(), g.Scalar(), g.Scalar()
+							pl := g.PointLen()
+							same = R1.UnmarshalBinary(sig[:pl]) == nil && R2.UnmarshalBinary(b[:pl]) == nil && s1.UnmarshalBinary(sig[pl:]) == nil &&
+								s2.UnmarshalBinary(b[pl:]) == nil && R1.Equal(R2) && s1.Equal(s2)
+						}
+						if !same || ng.name == "edwards25519" {
+							h.rep.Fail("schnorr.Verify/reused-object:malformed-accepted:"+ng.name, "malformed signature accepted", map[string]string{"sig": vh.Hex(b), "honest_sig": vh.Hex(sig)})
+						}
+					}
+				}
+				_ = schnorr.VerifyWithChecks(g, pb[:len(pb)-1], msg, sig)
+				_, _ = vh.Try(func() { _ = schnorr.VerifyWithChecks(g, r.Bytes(len(pb)), msg, sig) })
+				h.rep.Dist("reuse:schnorr-key-objects:refused-verifications-interleaved")
+				okA, _ := schnorrVerify(g, pub, msg, sig)
+				sB, _ := schnorr.Sign(&gsuite{g, vh.NewSeqStream(det)}, priv, msg)
+				if !bytes.Equal(pb, mustBytes(pub)) || !okA || !bytes.Equal(sA, sB) {
+					rp["after_refused_calls"] = fmt.Sprintf("key bytes unchanged=%v honest accepted=%v same-nonce signature unchanged=%v", bytes.Equal(pb, mustBytes(pub)), okA, bytes.Equal(sA, sB))
+					h.rep.Fail("schnorr/state-changed-by-refused-call:"+ng.name, "key objects behave differently after refused verifications", rp)
+				}
+			}
 			if prevSig != nil && !prevX.Equal(x) {
 				if ok, _ := schnorrVerify(g, pub, prevMsg, prevSig); ok {
 					h.rep.Fail("schnorr.Verify/reused-object:old-key-signature-accepted:"+ng.name, "signature of the key previously held by this point object is accepted", rp)
@@ -332,6 +425,40 @@ func (h *H) ringReuse(name string, mk func(seed []byte) anon.Suite, rounds int) 
 			want := mustBytes(suite.Point().Mul(xs[idx[pi]], suite.Point().Pick(suite.XOF(scope))))
 			if !bytes.Equal(tagF, want) {
 				h.rep.Fail("anon.Verify/reused-ring-objects:tag-not-x-times-linkbase:"+name, "tag differs from x*H(scope)", rp("sig", vh.Hex(sig)))
+			}
+		}
+		// refused calls on the same ring objects, then the same question again
+		if okR && r.Chance(70) {
+			before := make([][]byte, 8)
+			for i := range backing {
+				before[i] = mustBytes(backing[i])
+			}
+			bad := [][]byte{nil, sig[:len(sig)-1], sig[:suite.ScalarLen()], r.Bytes(len(sig)), flipBit(sig, r.Intn(8*suite.ScalarLen()*(n+1)-4))}
+			for _, b := range bad {
+				if _, ok, _ := ringVerify(suite, msg, set, scope, b); ok {
+					h.rep.Fail("anon.Verify/reused-ring-objects:malformed-accepted:"+name, "malformed ring signature accepted", rp("sig", vh.Hex(b), "honest_sig", vh.Hex(sig)))
+				}
+			}
+			if n >= 2 {
+				if _, ok, _ := ringVerify(suite, msg, set[:n-1], scope, sig); ok {
+					h.rep.Fail("anon.Verify/reused-ring-objects:shorter-ring-accepted:"+name, "signature accepted for a ring with one member dropped", rp("sig", vh.Hex(sig)))
+				}
+			}
+			if n < 8 {
+				_, _, _ = ringVerify(suite, msg, backing[:n+1], scope, sig)
+			}
+			wrongScope := []byte("scope-Z")
+			if _, ok, _ := ringVerify(suite, msg, set, wrongScope, sig); ok {
+				h.rep.Fail("anon.Verify/reused-ring-objects:wrong-scope-accepted:"+name, "signature accepted under another scope", rp("sig", vh.Hex(sig)))
+			}
+			h.rep.Dist("reuse:ring-member:" + name + ":refused-calls-interleaved")
+			changed := false
+			for i := range backing {
+				changed = changed || !bytes.Equal(before[i], mustBytes(backing[i]))
+			}
+			tag2, ok2, _ := ringVerify(suite, msg, set, scope, sig)
+			if changed || !ok2 || !bytes.Equal(tag2, tagR) {
+				h.rep.Fail("anon/state-changed-by-refused-call:"+name, fmt.Sprintf("ring objects behave differently after refused calls (members changed=%v, honest accepted=%v)", changed, ok2), rp("sig", vh.Hex(sig)))
 			}
 		}
 		prev = &old{msg, scope, append([]byte{}, sig...), n, append([]int{}, idx[:8]...)}
